@@ -170,10 +170,14 @@ void parity_size(struct snapraid_parity_handle* handle, data_off_t* out_size)
 
 		/* a file smaller than its recorded size holds less parity than recorded, */
 		/* like when the parity disk was replaced or the file truncated */
-		if (split->st.st_size < split->size)
+		/* the following splits are then unreachable, because every position */
+		/* after the missing part maps to a wrong offset, so stop counting */
+		if (split->st.st_size < split->size) {
 			size += split->st.st_size;
-		else
-			size += split->size;
+			break;
+		}
+
+		size += split->size;
 	}
 
 	*out_size = size;
